@@ -16,6 +16,16 @@ CONSTANTS Depth, MaxStmts, Export
 VARIABLES t, d, ss
 vars == <<t, d, ss>>
 
+\* the literal the lexer model gives a STRING token whose source body is `body` (escapes that are
+\* safe to decode are decoded, the others stay): named by the vocabulary entry with those bytes
+Lx == INSTANCE XjsLexer
+LexedBody(body) ==
+  LET dq == Lx!NextToken(<<34>> \o VB(body) \o <<34>>, Lx!InitCursor)[1]
+      sq == Lx!NextToken(<<39>> \o VB(body) \o <<39>>, Lx!InitCursor)[1]
+      tk == IF dq.eo = Len(VB(body)) + 1 THEN dq ELSE sq
+  IN IF tk.lit = VB(body) THEN body ELSE CHOOSE s \in DOMAIN Vocab : Vocab[s] = tk.lit
+Lexed(toks) == [j \in 1..Len(toks) |-> IF toks[j].ty = "STRING" THEN [toks[j] EXCEPT !.lit = LexedBody(toks[j].lit)] ELSE toks[j]]
+
 Str(x) == Node("str", x, <<>>)
 Call(f, args) == Node("call", "", <<f>> \o args)
 P(e) == E(Call(Id("print"), <<e>>))
@@ -47,7 +57,8 @@ N0 == Num("0")
 N1 == Num("1")
 N3 == Num("3")
 ExecTemplates ==
-  { P(A), P(Str("s")), P(Node("raw", "r", <<>>)), P(Str("a\\\\\"b")), P(Bin("+", Str("it's"), Str("\\t\\u000A\\n"))), Let("x", Bin("+", A, B)), P(Id("x")),
+  { P(A), P(Str("s")), P(Node("raw", "r", <<>>)), P(Str("a\\\\\"b")), P(Bin("+", Str("it's"), Str("\\t\\u000A\\n"))),
+    P(Str("caf\\xe9\\u00e9")), P(Node("raw", "a\n\n\nb", <<>>)), Let("x", Bin("+", A, B)), P(Id("x")),
     E(Asg(A, Bin("*", A, Num("2")))), E(Post("++", A)), E(Un("--", B)), E(Node("casg", "+=", <<Id("s"), Str("t")>>)),
     FDecl("g", <<Id("p"), Id("q")>>, <<Ret(Bin("-", Id("p"), Id("q")))>>), P(Call(Id("g"), <<A, B>>)),
     FDecl("h", <<Id("n")>>, <<If(Lt(Id("n"), Num("2")), Ret(N1), Nil), Ret(Bin("*", Id("n"), Call(Id("h"), <<Bin("-", Id("n"), N1)>>)))>>),
@@ -86,7 +97,7 @@ Inv == \A p \in Programs :
            LET ts == RenderProg(p, FALSE, <<>>)
                \* the printer model prints the tree the parser model reads from the rendered tokens
                \* (it contains the grouping nodes of the parentheses the unparser had to add)
-               pt == ParseProgram(DefaultP(Layout(ts, 1, {}))).tree
+               pt == ParseProgram(DefaultP(Lexed(Layout(ts, 1, {})))).tree
                mo == [c \in 1..3 |-> PrintTree(pt, Cfgs[c])]
            IN \A sep \in {1, 2, 3} :
                 SepOK(ts, sep) =>
